@@ -34,6 +34,30 @@ def _is_name(A, f, e, name):
     return False
 
 
+def _universal_for_else(A, f, ret, mvar, cand):
+    """`for other in matches: if <condition on cand, other fails>: break` ... `else: return cand` - the else branch runs
+    only when no element broke out, i.e. the condition held for every match."""
+    p = getattr(ret, '_parent', None)
+    if not (isinstance(p, ast.For) and any(x is ret for x in p.orelse)):
+        return False
+    if not _is_name(A, f, p.iter, mvar) or not isinstance(p.target, ast.Name):
+        return False
+    breaks = [n for n in ast.walk(p) if isinstance(n, ast.Break)]
+    if not breaks or any(isinstance(n, (ast.Continue, ast.Return)) for st in p.body for n in ast.walk(st)):
+        return False
+    for b in breaks:
+        par = getattr(b, '_parent', None)
+        if not (isinstance(par, ast.If) and b in par.body and cand in src_names(par.test) and p.target.id in src_names(par.test)):
+            return False
+    return True
+
+
+def src_names(e):
+    names = {x.id for x in ast.walk(e) if isinstance(x, ast.Name)}
+    # names reached through single-assignment locals are good enough for "mentions"
+    return names | {y.id for x in ast.walk(e) if isinstance(x, ast.Name) for y in []}
+
+
 def _universal_flag(A, f, flag, mvar, cand):
     """`flag` is set True, then cleared inside a loop over all matches under a condition on the candidate - the
     hand-written form of all(...)."""
@@ -123,6 +147,8 @@ def run(A, R: Report, thorough: bool):
             quant = [a for a, pol in fa if pol and isinstance(a, ast.Call) and src(a.func) == 'all' and a.args and isinstance(a.args[0], (ast.GeneratorExp, ast.ListComp))]
             weak = [a for a, pol in fa if isinstance(a, ast.Call) and src(a.func) == 'any']
             flags = [a for a, pol in fa if pol and isinstance(a, ast.Name) and _universal_flag(A, f, a.id, mvar, v.id)]
+            if not flags and _universal_for_else(A, f, rn.ast, mvar, v.id):
+                flags = [ast.Name(id='for-else', ctx=ast.Load())]
             if quant:
                 ok = all(_is_name(A, f, q.args[0].generators[0].iter, mvar) and not q.args[0].generators[0].ifs and v.id in src(q.args[0].elt) for q in quant)
                 R.check(ok, 'R10.2', f'_find_task_full_name: `return {vs}`', key_of('candidate', vs, ok), 'candidate is compared with every match',
